@@ -96,4 +96,39 @@ def cmdExecG (lenient : Bool) (spec : Bool) (a : List String) : String :=
 
 def cmdExec (spec : Bool) (a : List String) : String := cmdExecG false spec a
 
+/-- `SESSIONX <cfg: 7 fields> <cmds over s r x> <tok1,tok2,…>`: a walk in which `x` is `exec tok1 tok2 …` (valid tokens only) -/
+def cmdSessionX (a : List String) : String :=
+  match a with
+  | sv :: fl :: z :: w :: sc :: stk :: succ :: cmds :: toksS :: _ =>
+    match parseSession [sv, fl, z, w, sc, stk, succ] with
+    | some (c, su, _) =>
+      match setupModelS c su with
+      | .error r => r
+      | .ok e0 => Id.run do
+        let toks := if toksS == "-" then [] else toksS.splitOn ","
+        let mut e := e0
+        let mut marks := ""
+        let mut hh : UInt64 := fnvInit
+        for ch in cmds.toList do
+          let mut m := '-'
+          if ch == 's' then
+            if e.done then m := '-'
+            else match Model.instStep baseCtx baseTap e with
+              | .ok e' => e := e'; m := '+'
+              | .error _ => m := '!'
+          else if ch == 'r' then
+            match Model.instRewind e with
+            | some e' => e := e'; m := '+'
+            | none => m := '-'
+          else
+            match Model.instEval baseCtx e (toks.map tokBytes) with
+            | none => m := '-'
+            | some (e', none) => e := e'; m := '+'
+            | some (e', some _) => e := e'; m := '!'
+          marks := marks.push m
+          hh := fnvStr hh (hex16 (fnvStr fnvInit (fullState e)))
+        return s!"marks={marks} hs={hex16 hh} state={fullState e}"
+    | none => "bad-op"
+  | _ => "bad-op"
+
 end Driver
